@@ -11,6 +11,11 @@
             | err=nil,<tail>                          (T.Close)
             | ret=nil|true,<tail>                     (T.Flush / T.Open / T.IsOpen)
     apx drem none|<n>                                 => <uint64>   (defaultTransport.RemainingBytes)
+    apx dseq rl|norl <hexinit> <op>,<op>,…            => <dtail>;<res>;…
+        the same ops on t := NewDefaultTransport(obj) (handle T) and on obj itself (handle B); obj is a
+        buffer-like io.ReadWriter with its own Close (recorded) and, for `rl`, ReadableLen() = Len();
+        dtail = rem=<t.RemainingBytes>,len=<obj.Len>,bytes=<hex obj.Bytes>,closed=<obj.Close was called>
+        close = t.Close(): must return nil and change nothing
     apx dtr none|<n> <m>                              => rem=<uint64> wrapped=<bool>
         NewDefaultTransport of an io.ReadWriter that has the whole TTransport method set itself
         (own RemainingBytes() = m) and, unless `none`, ReadableLen() = n; wrapped = the result is not the argument
@@ -106,6 +111,60 @@ def seqVerdict (q : Queue) : List (Op × String) → List String → String
     if r.2 != "ok" then r.2 else seqVerdict r.1 rest items
   | _, _ => "bad:protocol"
 
+/-! histories on the generic transport -/
+
+def dtailStr (d : DT) : String :=
+  s!"rem={dtRemaining d},len={d.s.len},bytes={toHex d.s.bytes},closed=false"
+
+def dresStr (tag : String) (r : Res) (d : DT) : String :=
+  match r with
+  | .wrote n => s!"n={n},err=nil," ++ dtailStr d
+  | .got b e => s!"n={b.length},data={toHex b},err={if e then "eof" else "nil"}," ++ dtailStr d
+  | .done =>
+    (if tag == "reset" then "done," else if tag == "close" then "err=nil," else s!"ret={tag},") ++ dtailStr d
+
+def dseqModel (d : DT) : List (Op × String) → List String
+  | [] => []
+  | (op, tag) :: rest => dresStr tag (dtStep d op).2 (dtStep d op).1 :: dseqModel (dtStep d op).1 rest
+
+/-- tail verdict on the generic transport: contents = the queue, remaining = readable length when
+    the object exposes a positive one, else 2^64-1 -/
+def dtailVerdict (rl : Bool) (toks : List String) (q : Queue) : String :=
+  match field toks "rem", field toks "len", (field toks "bytes").bind parseHex with
+  | some rem, some len, some bs =>
+    let want : Nat := if rl && q.length > 0 then q.length else 18446744073709551615
+    if bs != q || len != toString q.length then "bad:C19:not-visible"
+    else if rem != toString want then "bad:C19:remaining-default"
+    else "ok"
+  | _, _, _ => "bad:protocol"
+
+def ditemVerdict (rl : Bool) (q : Queue) (op : Op) (item : String) : Queue × String :=
+  let toks := item.splitOn ","
+  let sp := specStep q (closeToNoop op)
+  let v :=
+    match op, sp.2 with
+    | .write _ p, _ =>
+      if field toks "n" != some (toString p.length) || field toks "err" != some "nil" then "bad:C19:write"
+      else dtailVerdict rl toks sp.1
+    | .read _ _, .got sd se =>
+      if (field toks "data").bind parseHex != some sd || field toks "n" != some (toString sd.length)
+        then "bad:C19:not-visible"
+      else if field toks "err" != some (if se then "eof" else "nil") then "bad:C19:read-err"
+      else dtailVerdict rl toks sp.1
+    | .close, _ =>
+      -- Close returns nil and leaves every observation as it was (sp.1 = q)
+      if field toks "err" != some "nil" || dtailVerdict rl toks q != "ok" then "bad:C19:close"
+      else "ok"
+    | _, _ => dtailVerdict rl toks sp.1
+  (sp.1, v)
+
+def dseqVerdict (rl : Bool) (q : Queue) : List (Op × String) → List String → String
+  | [], [] => "ok"
+  | (op, _) :: rest, item :: items =>
+    let r := ditemVerdict rl q op item
+    if r.2 != "ok" then r.2 else dseqVerdict rl r.1 rest items
+  | _, _ => "bad:protocol"
+
 /-! callbacks -/
 
 def cbCheck (k : Nat) : Nat → Nat × Nat × Nat := fun v => (k, 0, v)
@@ -182,6 +241,21 @@ def stepLine (ever : Bool) (args : List String) (impl : String) : Bool × String
           | first :: items =>
             let v0 := tailVerdict (first.splitOn ",") init
             if v0 != "ok" then v0 else seqVerdict init ops items
+          | [] => "bad:protocol"
+        (ever, model, verdict)
+      else (ever, "bad-op", "na")
+    | _, _ => (ever, "bad-op", "na")
+  | ["apx", "dseq", kind, h, ops] =>
+    match parseHex h, parseOps ops with
+    | some init, some ops =>
+      if kind == "rl" || kind == "norl" then
+        let rl := kind == "rl"
+        let d0 : DT := ⟨Buf.new init, rl⟩
+        let model := ";".intercalate (dtailStr d0 :: dseqModel d0 ops)
+        let verdict := match impl.splitOn ";" with
+          | first :: items =>
+            let v0 := dtailVerdict rl (first.splitOn ",") init
+            if v0 != "ok" then v0 else dseqVerdict rl init ops items
           | [] => "bad:protocol"
         (ever, model, verdict)
       else (ever, "bad-op", "na")
